@@ -436,11 +436,11 @@ I("impl ChunkSizeParser {\n    fn size_bytes(&self) -> usize", ") ensures r == (
 I("impl Authenticator {\n", '''    spec fn alg(&self) -> int { self.cipher.alg() }
     spec fn key(&self) -> Seq<u8> { self.cipher.key() }
     spec fn cnt(&self) -> u16 { self.counting.count }
-    spec fn wf(&self) -> bool { self.counting.nonce_size == 12 }
+    spec fn wf(&self) -> bool { self.counting.nonce_size == 12 && self.cipher.alg() < 4 }
     spec fn same_key(&self, o: &Authenticator) -> bool { self.alg() == o.alg() && self.key() == o.key() && self.wf() == o.wf() }
 ''')
 I("    fn new(cipher: CipherMethod) -> ", "(r: ")
-I("    fn new(cipher: CipherMethod) -> Self", ")\n        ensures r.alg() == cipher.alg(), r.key() == cipher.key(), r.wf(),\n            //#C12 C03\n            r.cnt() == 0,\n   ")
+I("    fn new(cipher: CipherMethod) -> Self", ")\n        requires cipher.alg() < 4,\n        ensures r.alg() == cipher.alg(), r.key() == cipher.key(), r.wf(),\n            //#C12 C03\n            r.cnt() == 0,\n   ")
 I("    const fn size_bytes(&self) -> ", "(r: ")
 I("    const fn size_bytes(&self) -> usize", ") ensures r == 18 ")
 a = "    fn encode_size(&mut self, size: usize, nonce: &mut [u8]) -> "
